@@ -85,6 +85,12 @@ func (ctx *Ctx) diff(w *Worker, class string, nontrivial bool, fields ...string)
 	if real == "FAIL" {
 		ctx.Res.Count("fail=" + fields[0])
 	}
+	if real == "PANIC" && model == "FAIL" {
+		// the model's failure outcome covers scipipe.Fail and a Go panic alike: both end the workflow
+		// (e.g. prependParentDirPath indexing an empty path); counted so that the evidence shows them
+		ctx.Res.Count("panic-as-fail=" + fields[0])
+		return real, model, true
+	}
 	if real != model {
 		ctx.Res.Disagree(Violation{What: class + ": real=" + quote(real) + " model=" + quote(model), Class: class, Witness: fields})
 		return real, model, false
